@@ -372,6 +372,7 @@ func checkC18(w *World, r *Report) {
 	r.Explanation = "Decides, for every template and every shape of context data, that twig's own code never writes through a value that derives from the caller's data: (R18.1) the context field of a render context is only ever assigned a fresh map; (R18.2) in every function reachable from render roots, the container of every mutating operation — element store, map update/delete, append, copy destination, sort.* / slices.Sort*, reflect Set/SetMapIndex/SetLen/Swapper/Copy — is provably fresh (allocated in this render, possibly by a summarised allocating helper) or rooted in engine-internal state, never a value derived from interface{}-typed parameters, evaluation results or their elements. Not decided: mutation performed by user callbacks or by methods of user types invoked through attribute access."
 	r.Explanation += " Rules added in later rounds: (R18.3) no address of reflected caller data; (R18.4) data values are not asserted to consuming interfaces."
 	r.Explanation += " Round 9: variables read back from a RenderContext map are data; elements of maps held in fields are not assumed fresh."
+	r.Explanation += " Round 12: (R18.5) context values are copied as given; (R18.6) no receiver-writing methods on data values."
 	r.RuleText = "obligation = one mutating operation on a container in a render-reachable function; non-trivial = those whose container is not syntactically an allocation of the same function"
 	r.Trusted = []string{"freshness summaries are intra-procedural plus return-freshness of package helpers", "sort.*, slices.Sort*, reflect.Value.Set* are the in-place mutators of the standard library"}
 
